@@ -293,7 +293,8 @@ class World:
             for t in pend:
                 t.cancel()
             if pend:
-                loop.run_until_complete(asyncio.gather(*pend, return_exceptions=True))
+                # bounded: code under test that swallows cancellation must not hang the harness
+                loop.run_until_complete(asyncio.wait(pend, timeout=600))
         except Exception:
             pass
         asyncio.set_event_loop(None)
